@@ -1,6 +1,7 @@
 """Triage helper (not used by any check): import pysph's *Python* sources from a
 source tree (default /repo, or $TRIAGE_SRC) while taking the compiled extension
-modules from the pre-built copy under /repo/build/lib.*."""
+modules from $TRIAGE_EXT (output of build_ext.py, if set) and then the
+pre-built copy under /repo/build/lib.*."""
 import importlib
 import os
 import sys
@@ -10,4 +11,6 @@ sys.path.insert(0, SRC)
 for sub in ['pysph', 'pysph.base', 'pysph.sph', 'pysph.solver', 'pysph.parallel', 'pysph.tools',
             'pysph.sph.wc', 'pysph.sph.bc']:
     m = importlib.import_module(sub)
+    if os.environ.get('TRIAGE_EXT'):
+        m.__path__.append(os.path.join(os.environ['TRIAGE_EXT'], sub.replace('.', '/')))
     m.__path__.append(os.path.join(B, sub.replace('.', '/')))
